@@ -24,7 +24,7 @@ Next == UNCHANGED cvars
 Spec == Init /\ [][Next]_cvars
 
 RecogniserComplete == IsRecomb(p1, c, Subterms(p2))
-TypedOffspringStaysInLanguage == WellTyped(c, StartForm(g), g) => c \in Lang(g, StartForm(g), 2 * Bound)
+TypedOffspringStaysInLanguage == WellTyped(c, StartForm(g), g) => Depth(c) <= 2 * Bound /\ (RefOK(p1, StartForm(g), g) /\ RefOK(p2, StartForm(g), g) => RefOK(c, StartForm(g), g))
 
 Genes == 0..2
 ASSUME LinearLemma == \A a \in [1..3 -> Genes], b \in [1..3 -> Genes], r \in 0..3 :
